@@ -459,6 +459,9 @@ type ClientCfg struct {
 	CertVerifyKey  *big.Int // sign CertificateVerify with this key instead of Cert.Key
 	CertVerifyOver []byte   // sign over this transcript instead of the real one
 	SkipSKXCheck   bool
+	// IgnoreCertRequest: behave as if no CertificateRequest had been received (no
+	// Certificate message at all, no CertificateVerify), with a consistent transcript.
+	IgnoreCertRequest bool
 }
 
 // Result is the outcome of a reference handshake.
@@ -668,7 +671,7 @@ func ClientHandshake(c *Conn, cfg *ClientCfg) (*Result, error) {
 	}
 	// client flight
 	sentCert := false
-	if res.CertReq != nil {
+	if res.CertReq != nil && !cfg.IgnoreCertRequest {
 		var chain [][]byte
 		if cfg.Cert != nil {
 			chain = cfg.Cert.Chain
